@@ -223,34 +223,52 @@ def ob_read_info(ctx, res):
 
 
 def _magic_table(ctx, res, fn, magic_read):
-    """C10-T1: {(BIGWIG,to_le)->(BigWig,Big),(BIGWIG,to_be)->(BigWig,Little),(BIGBED,to_le)->(BigBed,Big),(BIGBED,to_be)->(BigBed,Little)}"""
-    ms = [n for n in walk_no_nested_fn(fn.body) if n.k == "match" and up(strip(n["scrut"])) == "magic"]
-    if len(ms) != 1:
-        res.fail("magic/table", fn, "magic detection match not found")
+    """C10-T1: {(BIGWIG,to_le)->(BigWig,Big),(BIGWIG,to_be)->(BigWig,Little),(BIGBED,to_le)->(BigBed,Big),(BIGBED,to_be)->(BigBed,Little)}; anything else an error.
+    The dispatch (a guarded match, an if-chain, ..) is evaluated for the four magics in both byte orders, an unknown value and zero."""
+    from ..rules.interp import Interp, NotPure, _Return
+    site = [n for n in walk_no_nested_fn(fn.body) if n.k == "let" and n["pat"].k == "p_tuple" and len(n["pat"]["elems"]) == 2 and n.get("init") is not None
+            and "magic" in up(n["init"]) and "MAGIC" in up(n["init"])]
+    if len(site) != 1:
+        res.undecided("magic/table", fn, "the `let (filetype, endianness) = <dispatch on magic>` was not located")
         return
     want = {("BIGWIG_MAGIC", "to_le"): ("BigWig", "Big"), ("BIGWIG_MAGIC", "to_be"): ("BigWig", "Little"),
             ("BIGBED_MAGIC", "to_le"): ("BigBed", "Big"), ("BIGBED_MAGIC", "to_be"): ("BigBed", "Little")}
+
+    def method(m, recv, args):
+        if m in ("to_le", "to_be", "swap_bytes") and isinstance(recv, tuple) and recv and recv[0] == "const" and not args:
+            return ("magic", recv[1], m)
+        raise NotPure("method " + m)
+
+    def path(p_):
+        if p_.split("::")[-1].endswith("_MAGIC"):
+            return ("const", p_.split("::")[-1])
+        if "::" in p_ and p_.split("::")[-1][:1].isupper():
+            return ("variant", p_.split("::")[-1], [])
+        raise NotPure("free name " + p_)
     got = {}
-    fallthrough = None
-    for a in ms[0]["arms"]:
-        g = a.get("guard")
-        if g is None:
-            fallthrough = a
-            continue
-        g = strip(g)
-        mm = re.match(r"^magic == (\w+)\.(to_le|to_be)\(\)$", up(g)) or re.match(r"^(\w+)\.(to_le|to_be)\(\) == magic$", up(g))
-        b = strip(a["body"])
-        if not mm or b.k != "tuple" or len(b["elems"]) != 2:
-            res.fail("magic/arm", a, "magic arm not recognised: %s" % up(a)[:80])
+    cases = [("magic", c, o) for (c, o) in want] + ["OTHER", 0]
+    for mv in cases:
+        it = Interp(ctx.ast, R, extern={"None": None, "method": method, "path": path})
+        try:
+            v = it.ev(site[0]["init"], {"magic": mv}, 0)
+        except _Return as r:
+            v = ("ret", r.v)
+        except NotPure as e:
+            res.undecided("magic/table", site[0], "magic dispatch is outside the fragment the rule evaluates (%s)" % e)
             return
-        got[(mm.group(1), mm.group(2))] = (up(b["elems"][0]).split("::")[-1], up(b["elems"][1]).split("::")[-1])
-    if got != want:
-        res.fail("magic/table", ms[0], "magic/byte-order table is %s, must be %s (magic read big-endian on a little-endian host)" % (got, want))
-        return
-    if fallthrough is None or "Err" not in up(fallthrough["body"]):
-        res.fail("magic/unknown", ms[0], "unknown magic must be an error")
-        return
-    res.ok(ms[0], "magic table: 4 arms (bigWig/bigBed x byte order), anything else -> UnknownMagic")
+        got[mv if not isinstance(mv, tuple) else (mv[1], mv[2])] = v
+    for k, (ft, en) in want.items():
+        v = got[k]
+        if not (isinstance(v, tuple) and len(v) == 2 and all(isinstance(x, tuple) and x[0] == "variant" for x in v) and (v[0][1], v[1][1]) == (ft, en)):
+            res.fail("magic/table", site[0], "magic %s.%s() must select (%s, %s byte order); the dispatch yields %s (the magic is read big-endian: a value equal to the little-endian "
+                                             "encoding of the constant means the file is big-endian)" % (k[0], k[1], ft, en, v))
+            return
+    for k in ("OTHER", 0):
+        v = got[k]
+        if not (isinstance(v, tuple) and v[0] == "ret" and isinstance(v[1], tuple) and v[1][0] == "err"):
+            res.fail("magic/unknown", site[0], "an unknown magic (%s) must be an error; the dispatch yields %s" % ("zero - an unfinished file" if k == 0 else "any other value", v))
+            return
+    res.ok(site[0], "magic table evaluated: 4 magics (bigWig/bigBed x byte order) select file type and byte order, anything else (also 0) -> UnknownMagic")
 
 
 def ob_read_zoom_headers(ctx, res):
@@ -1066,8 +1084,8 @@ def ob_endianness_args(ctx, res):
                     good = "endianness" in o
                     if re.fullmatch(r"p\d+", o) and "Endianness" in fn.params[int(o[1:])][1]:
                         good = True
-                    if "Endianness::" in o and "match(" in o:
-                        good = True
+                    if "Endianness::" in o and ("match(" in o or "if(" in o) and "magic" in o:
+                        good = True       # the byte order detected from the file's magic (C10-T1 decides that dispatch)
                     n += 1
                     if good:
                         res.ok(c, "%s(.., %s, ..) byte order from %s" % (name, up(args[ai]), o[:50]))
